@@ -219,6 +219,23 @@ impl<'a> Suite<'a> {
 					self.rep.violate(&format!("{}:{}", clause, class), &format!("certificate violates specification clause {}", clause), format!("{}\nspec-request: {}\nspec-answer: {}", out.replay(), line, resp));
 				}
 			}
+			// the returned Certificate value reports what its DER encodes
+			if let (Some(cert), true) = (&out.cert, self.prop == "C02" || self.prop == "C15") {
+				let kid = cert.key_identifier();
+				let oline = format!("spec-cert-object {} {} {} {} {} {}", cfg_name(), p.sexp(), key_sexp(&*key), issuer_s, hex(der), hex(&kid));
+				let oresp = self.drv.ask(&oline);
+				self.rep.count("certificate_objects_checked");
+				for clause in Self::parse_fail(&oresp) {
+					if clause == "tie:key-identifier" {
+						self.rep.disagree(&format!("{}:cert-object", self.prop), "model and implementation differ on the key identifier a Certificate reports", format!("{}\nobject-request: {}\nanswer: {}", out.replay(), oline, oresp));
+					} else if self.mine(&clause) || clause.starts_with("spec-driver-error") {
+						self.rep.violate(&format!("{}:{}", clause, classify_cert(p, &clause)), "Certificate::key_identifier() differs from the subjectKeyIdentifier encoded in the certificate", format!("{}\nreported key identifier: {}\nspec-answer: {}", out.replay(), hex(&kid), oresp));
+					}
+				}
+				if Some(cert.params()) != p.real().as_ref() {
+					self.rep.violate(&format!("{}:reported-params-equal-input", self.prop), "Certificate::params() differs from the parameters the certificate was generated from", format!("{}\nreported: {:?}", out.replay(), cert.params()));
+				}
+			}
 		}
 		out
 	}
